@@ -44,10 +44,12 @@ class Rng:
             l[i], l[j] = l[j], l[i]
 
     def bytes(self, n):
-        out = bytearray()
-        while len(out) < n:
-            out += self.u64().to_bytes(8, "little")
-        return bytes(out[:n])
+        if n <= 64:
+            out = bytearray()
+            while len(out) < n:
+                out += self.u64().to_bytes(8, "little")
+            return bytes(out[:n])
+        return hashlib.shake_256(self.u64().to_bytes(8, "little")).digest(n)
 
     def fork(self, *parts):
         return Rng(self.u64(), *parts)
